@@ -393,6 +393,17 @@ void vp_c17_trace_null(bool isnull, vp_obs& o)
   char const* r = m.s(in);
   o.ret = (r == in); o.x = isnull; o.y = 0; o.extra = 0;
 }
+// C18 / C15: a no-match report whose actual argument is a null char pointer
+void vp_c18_null_report(vp_obs& o)
+{
+  vp_MS m;
+  REQUIRE_CALL(m, s(trompeloeil::ne(nullptr))).RETURN(_1);
+  o.ret = 0; o.x = 0;
+  try { m.s(nullptr); }
+  catch (...) { o.ret = 1; }
+  o.x = (m.s("x") != nullptr);
+  o.y = 0; o.extra = 0;
+}
 // C08: THROW - the side effects run first, the exception reaches the caller, the call still counts as handled
 void vp_c08_throw(int k, vp_obs& o)
 {
